@@ -80,6 +80,18 @@ func c12Ops() []c12op {
 			e.MapToScalarField(&m)
 			return fmt.Sprint(hx(src[:]), err, e.Bytes() == src, frToBig(m).Text(16))
 		}},
+		{"common.ReadPoint / MultiProof.Read / Write", false, func(c *ipa.IPAConfig, seed int64, slot int) string {
+			src := c.SRS[30+slot].Bytes()
+			p, err := common.ReadPoint(bytes.NewReader(src[:]))
+			hb := honestProofBytes(seed, slot)
+			var mp multiproof.MultiProof
+			err2 := mp.Read(bytes.NewReader(hb))
+			var out bytes.Buffer
+			err3 := mp.Write(&out)
+			s, err4 := common.ReadScalar(bytes.NewReader(hb[544:]))
+			ok := p != nil && p.Bytes() == src
+			return fmt.Sprint(ok, err, err2, err3, err4, bytes.Equal(out.Bytes(), hb), s != nil)
+		}},
 		{"Commit(sparse)", true, func(c *ipa.IPAConfig, seed int64, slot int) string {
 			v := make([]fr.Element, 8)
 			v[slot] = frFromBig(prfR(seed, "c12", slot))
@@ -263,7 +275,7 @@ func clipS(s string) string {
 func init() {
 	core.Register(&core.Check{
 		ID: "C12", Level: "model_checking",
-		Rule:        "harnesses of 2-3 goroutines sharing one IPAConfig, the package tables and the big.Int pool, operations chosen to collide on the shared objects: (1) ALL 2-subsets (with repetition) and a family of 3-subsets of 7 short operations (fr decoders/printers through the pool, transcripts, element codec): unbounded DPOR over every interleaving and every sync.Pool answer, pooled objects poisoned on Put; (2) pairs of a heavy call (Commit, MultiScalar, BatchNormalize, CheckIPAProof, CreateIPAProof, CreateMultiProof+Check) with a short one and heavy-heavy pairs: DPOR under a time cap (cap reported); oracle: every call's output equals its output when executed alone, no deadlock state, shared fingerprint unchanged; (3) race pass: all pairs of the same bodies free-running in the -race build under GOMAXPROCS 1,2,4,16 (first-use phase on a fresh configuration, then every pair; 3 repetitions in thorough) — any report is a violation; a state is a decision point of the explored schedule tree; non-trivial = executions with at least one scheduling point where two goroutines address the same shim object",
+		Rule:        "harnesses of 2-3 goroutines sharing one IPAConfig, the package tables and the big.Int pool, operations chosen to collide on the shared objects: (1) ALL 2-subsets (with repetition) and a family of 3-subsets of 8 short operations (fr decoders/printers through the pool, transcripts, element codec): unbounded DPOR over every interleaving and every sync.Pool answer, pooled objects poisoned on Put; (2) pairs of a heavy call (Commit, MultiScalar, BatchNormalize, CheckIPAProof, CreateIPAProof, CreateMultiProof+Check) with a short one and heavy-heavy pairs: DPOR under a time cap (cap reported); oracle: every call's output equals its output when executed alone, no deadlock state, shared fingerprint unchanged; (3) race pass: all pairs of the same bodies free-running in the -race build under GOMAXPROCS 1,2,4,16 (first-use phase on a fresh configuration, then every pair; 3 repetitions in thorough) — any report is a violation; a state is a decision point of the explored schedule tree; non-trivial = executions with at least one scheduling point where two goroutines address the same shim object",
 		Assume:      []string{"scheduling points = visible synchronisation operations; sequential consistency; data-race freedom is discharged by the separate free-running -race pass (a cooperative scheduler would blind the detector)", "heavy pairs are explored under a wall-clock cap, reported in caps_hit"},
 		UnitTimeout: 20 * time.Minute,
 		Units:       c12Units,
